@@ -47,7 +47,8 @@ def shape_schema(variant):
 def sort_schema():
     """sorted vectors reached through every path the generated recursive sorter walks: table field, vector of tables, union, union vector"""
     T = lambda name, fields: {"name": name, "fields": fields}
-    S = {"namespace": "So.Rt", "enums": [], "structs": [{"name": "KS", "fields": [{"name": "k", "type": "int"}, {"name": "v", "type": "short"}], "force_align": None}],
+    S = {"namespace": "So.Rt", "enums": [], "structs": [{"name": "KS", "fields": [{"name": "k", "type": "int"}, {"name": "v", "type": "short"}], "force_align": None},
+                                                        {"name": "KL", "fields": [{"name": "a", "type": "long"}], "force_align": None}],
          "unions": [{"name": "U", "members": [("T", "Bag"), ("T", "Shelf"), ("str", "Note")]}],
          "tables": [T("Room", [{"name": "shelf", "kind": "table", "type": "Shelf"}, {"name": "shelves", "kind": "vec_table", "type": "Shelf"},
                                {"name": "u", "kind": "union", "type": "U"}, {"name": "us", "kind": "vec_union", "type": "U"}]),
@@ -56,7 +57,11 @@ def sort_schema():
                     T("Bag", [{"name": "items", "kind": "vec_table", "type": "Item", "sorted": True}, {"name": "tags", "kind": "vec_string", "sorted": True},
                               {"name": "n", "kind": "vec_scalar", "type": "int", "sorted": True}, {"name": "id", "kind": "scalar", "type": "ulong", "key": True},
                               {"name": "ks", "kind": "vec_struct", "type": "KS"}]),
-                    T("Item", [{"name": "name", "kind": "string", "key": True}, {"name": "w", "kind": "scalar", "type": "short", "key": True}])]}
+                    T("Item", [{"name": "name", "kind": "string", "key": True}, {"name": "w", "kind": "scalar", "type": "short", "key": True},
+                               # nested buffers with struct roots of alignment 8 and 4: the generated builder must pass these alignments on
+                               {"name": "nb", "kind": "vec_scalar", "type": "ubyte", "nested": "KL"}, {"name": "nc", "kind": "vec_scalar", "type": "ubyte", "nested": "KS"},
+                               # a field called `identifier` (the generator drops the deprecated <T>_identifier alias then) in a table that is also a nested root
+                               {"name": "identifier", "kind": "scalar", "type": "int"}, {"name": "ni", "kind": "vec_scalar", "type": "ubyte", "nested": "Item"}])]}
     S["root"] = "Room"
     S["unions_last"] = True      # the union is declared after the tables that use it
     return S
@@ -183,9 +188,16 @@ def run(ctx):
             if rc != 0:
                 return "schema %d: flatcc %s failed: %s\n%s" % (si, " ".join(opts), (out + err)[:300], schemagen.render(S))
             if "--stdout" in opts: open(os.path.join(vd, single), "w").write(out)
+            # constants the generated builder passes on: a nested struct root is placed with the struct's own alignment
+            btxt = open(os.path.join(vd, single or "s_builder.h")).read()
+            als = {pre + name: al for (sj, name, size, al, offs, fnames) in expect if sj == si}
+            for m in re.finditer(r"build_nested_struct_root\(\w+, (\w+), (\w+), (\d+),", btxt):
+                if m.group(2) in als and int(m.group(3)) != als[m.group(2)]:
+                    return "schema %d: the generated builder (`flatcc %s`) nests the struct root %s of field %s with alignment %s, the struct's alignment is %d\n%s" % (
+                        si, " ".join(opts), m.group(2), m.group(1), m.group(3), als[m.group(2)], schemagen.render(S))
             incs = ['#include "%s"' % single] if single else ['#include "s_reader.h"', '#include "s_builder.h"', '#include "s_verifier.h"', '#include "s_json_parser.h"', '#include "s_json_printer.h"']
             open(os.path.join(vd, "probe.c"), "w").write("\n".join(['#include <stddef.h>'] + incs + asserts + ["int main(void) { return 0; }"]) + "\n")
-            rc, log = cc(["-std=c11", "-Wall", "-Wno-unused-function", "-Werror=implicit-function-declaration", "-Werror=int-conversion", "-c", os.path.join(vd, "probe.c"),
+            rc, log = cc(["-std=c11", "-Wall", "-Wno-unused-function", "-Werror=implicit-function-declaration", "-Werror=int-conversion", "-Werror=incompatible-pointer-types", "-c", os.path.join(vd, "probe.c"),
                           "-o", os.path.join(vd, "probe.o"), "-I", vd, "-I", os.path.join(REPO, "include")])
             if rc != 0:
                 return "schema %d: code generated with `flatcc %s` does not compile as C11 / a static assertion fails: %s\n%s" % (si, " ".join(opts), log[-1200:], schemagen.render(S))
